@@ -52,7 +52,22 @@ GLOBAL_STREAM = {"rand", "random", "normal", "uniform", "choice", "randint", "ra
                  "permutation", "shuffle", "standard_normal", "seed", "get_state", "set_state"}
 
 
+MOLV = ["molecules"]
+
+
+def _find_molv(ctx: Ctx):
+    """Name of the local holding the ordered pair [fixed, mobile] in Alignment.align_molecules."""
+    f = ctx.func("Alignment.align_molecules")
+    for st in walk_no_nested(f.node):
+        if isinstance(st, ast.Assign) and isinstance(st.targets[0], ast.Name) and isinstance(st.value, (ast.List, ast.Tuple)) \
+                and sorted(norm(e) for e in st.value.elts) == ["self.end", "self.start"]:
+            MOLV[0] = st.targets[0].id
+            return
+    MOLV[0] = "molecules"
+
+
 def run(ctx: Ctx):
+    _find_molv(ctx)
     E = Effects(ctx.repo)
     c18.r6_1(ctx, E, "R6.1")
     r6_2(ctx, E)
@@ -134,7 +149,7 @@ def r6_2(ctx: Ctx, E: Effects, rule="R6.2"):
            "the translation dominates the optimiser call (both molecules share a centre when the search starts)",
            node=tr[0] if tr else f.node)
     # fixed molecule = molecules[0] is only read after the translation
-    reads0 = [n for n in ast.walk(f.node) if isinstance(n, ast.Subscript) and norm(n) == "molecules[0]"]
+    reads0 = [n for n in ast.walk(f.node) if isinstance(n, ast.Subscript) and norm(n) == (MOLV[0] + "[0]")]
     bad0 = []
     pm = parents_map(f.node)
     for n in reads0:
@@ -152,7 +167,7 @@ def r6_3(ctx: Ctx, rule="R6.3"):
     order_if = wb_if = None
     for n in walk_no_nested(f.node):
         if isinstance(n, ast.If):
-            if any(isinstance(s, ast.Assign) and norm(s.targets[0]) == "molecules" for s in n.body):
+            if any(isinstance(s, ast.Assign) and norm(s.targets[0]) == MOLV[0] for s in n.body):
                 order_if = n
             if any(isinstance(s, ast.Assign) and isinstance(s.targets[0], ast.Attribute) and s.targets[0].attr == "atoms_positions"
                    for s in n.body):
@@ -172,7 +187,7 @@ def r6_3(ctx: Ctx, rule="R6.3"):
 
     def mol_list(stmts):
         for s in stmts:
-            if isinstance(s, ast.Assign) and norm(s.targets[0]) == "molecules" and isinstance(s.value, (ast.List, ast.Tuple)):
+            if isinstance(s, ast.Assign) and norm(s.targets[0]) == MOLV[0] and isinstance(s.value, (ast.List, ast.Tuple)):
                 return [norm(e) for e in s.value.elts]
         return None
 
@@ -201,8 +216,8 @@ def r6_3(ctx: Ctx, rule="R6.3"):
                 tg = s.targets[0]
                 names = [norm(e) for e in tg.elts] if isinstance(tg, ast.Tuple) else [norm(tg)]
                 if norm(opt[0].args[0]) in names:
-                    srcs0 |= {norm(x) for x in ast.walk(s.value) if isinstance(x, ast.Subscript) and norm(x.value) == "molecules"}
-        okm = srcs0 == {"molecules[0]"} and t1 == "molecules[1].atoms_positions"
+                    srcs0 |= {norm(x) for x in ast.walk(s.value) if isinstance(x, ast.Subscript) and norm(x.value) == MOLV[0]}
+        okm = srcs0 == {(MOLV[0] + "[0]")} and t1 == (MOLV[0] + "[1].atoms_positions")
     ctx.ob(rule, f, opt[0] if opt else "optimiser call", okm,
            "the optimiser gets the fixed molecule's positions first and the mobile molecule's positions second",
            node=opt[0] if opt else f.node)
